@@ -12,6 +12,10 @@ var procChoices = []int{1, 2, 3, 4, 8, 16}
 func finish(ctx *common.Ctx, p *Prog) *Prog {
 	p.Procs = common.Pick(ctx.Rng, procChoices)
 	p.Yield = common.Pick(ctx.Rng, []int{0, 0, 10, 30, 60})
+	p.Slow = -1
+	if ctx.Rng.Chance(25) && len(p.Code) > 0 && CountOps(p.Code[0]) < 60 {
+		p.Slow = ctx.Rng.Intn(len(p.Code))
+	}
 	if p.Cells == nil {
 		p.Cells = []string{}
 	}
@@ -288,10 +292,38 @@ func generate(ctx *common.Ctx) []*Prog {
 	for i := 0; i < big; i++ {
 		ps = append(ps, genPipe(ctx, 50), genCounter(ctx, 60), genStages(ctx, 30))
 	}
+	// the largest shapes the property names: 8 routines x 200 operations
+	ps = append(ps, stressPipe(ctx), stressCounter(ctx))
 	for i, p := range ps {
 		if len(p.Code) > 8 {
 			panic(fmt.Sprintf("program %d (%s) has %d routines", i, p.Shape, len(p.Code)))
 		}
 	}
 	return ps
+}
+
+// 4 producers x 200 pushes, 4 consumers x 200 pops over one small channel
+func stressPipe(ctx *common.Ctx) *Prog {
+	p := &Prog{Shape: "stress-pipe", Caps: []int{common.Pick(ctx.Rng, []int{0, 1, 4})}}
+	for i := 0; i < 4; i++ {
+		p.Code = append(p.Code, repeatOp(200, func(k int) Op { return Push(0, int64(i*1000+k)) }))
+	}
+	for j := 0; j < 4; j++ {
+		p.Code = append(p.Code, repeatOp(200, func(int) Op { return Pop(0) }))
+	}
+	return finish(ctx, p)
+}
+
+// 8 routines x 66 guarded increments (198 operations each) on two cells
+func stressCounter(ctx *common.Ctx) *Prog {
+	r := ctx.Rng
+	p := &Prog{Shape: "stress-counter", NMutex: 2, Mem: []int64{0, 7},
+		Cells: []string{common.Pick(r, []string{"global", "clos", "flavor", "hash"}), common.Pick(r, []string{"global", "clos", "flavor", "hash"})}}
+	for i := 0; i < 8; i++ {
+		p.Code = append(p.Code, repeatOp(66, func(k int) Op {
+			x := r.Intn(2)
+			return Incr(x, x, int64(1+r.Intn(2)))
+		}))
+	}
+	return finish(ctx, p)
 }
